@@ -48,6 +48,7 @@ class C03(Prop):
         if r.random() < 0.75:
             cfg.update(hier_config(r))
             cfg["source"] = "hier"
+            cfg["upto_rate"] = r.choice([0.0, 0.3])
             cfg["acyclic_libs"] = True
             cfg["shuffle_order"] = r.random() < 0.7
             cfg["name_style"] = r.choice(["unique", "scoped", "scoped", "pool"])
